@@ -18,6 +18,7 @@ EXTENDS Function
 (* DESIGN.md).  TRUE = the repaired behaviour.                             *)
 CHECKPOW2 == TRUE    \* reject an alignment that is not a power of two (C03; fix: commit in /repo)
 CHECKENUMRANGE == FALSE \* reject a discriminant outside the base type (C08)
+CHECKENUMBASE == TRUE   \* reject an enum whose base is not a primitive integer type (C13/C08; fix F22)
 
 HexDigits == <<"0","1","2","3","4","5","6","7","8","9","a","b","c","d","e","f">>
 RECURSIVE Hex(_)
@@ -295,7 +296,9 @@ AttemptEnum(reg, ptr, m, p, d) ==
       (* the counter is an isize: writing a value past it cannot be parsed, and stepping *)
       (* past isize::MAX must be an error, not an overflow                               *)
       counterOverflow == \E i \in DOMAIN vals : ~FitsIsize(vals[i].val)
-  IN IF ty = TNone \/ size = None THEN Defer(<<>>)
+  IN IF ty = TNone THEN Defer(<<>>)
+     ELSE IF CHECKENUMBASE /\ ~isInt THEN FailA("enum-base-not-integer", <<>>)
+     ELSE IF size = None THEN Defer(<<>>)
      ELSE IF Cardinality(marks) > 1 THEN FailA("multiple-default", <<>>)
      ELSE IF d.defaultable /\ marks = {} THEN FailA("defaultable-without-default", <<>>)
      ELSE IF ~d.defaultable /\ marks # {} THEN FailA("default-without-defaultable", <<>>)
